@@ -2,18 +2,30 @@ import McpModel.Generated.KeepAliveGen
 /-
 E9 — model of `mcp.startKeepalive` (mcp/shared.go:822-894).  Serves C13.
 
-The keep-alive goroutine is a loop over ticker ticks.  Tick `k` (k = 1, 2, …) fires at virtual time
-`k·I`; the loop then issues one ping with its own deadline `pingTimeout I` (regenerated: `I/2`) and
+The keep-alive goroutine is a loop over ticker ticks.  The ticker fires at the grid instants `k·I`
+(k = 1, 2, …); on a tick the loop issues one ping with its own deadline — `pingTimeout I`
+(regenerated: `I/2`) after the instant the ping is ISSUED, whatever the tick's own timestamp — and
 waits for it.  What the peer does with that ping is the input (`Script`): after `delay` ns it answers,
-reports method-not-found, or fails with another error — or it never answers.  A ping whose scripted
-delay is not below the deadline ends *at* the deadline with the context's error (a failure); this
-is the contract of `keepaliveSession.Ping` (it honours its context), which the real sessions
-implement through `jsonrpc2.Connection.Call` and which the harness's scripted session implements
-literally.  Hence every ping lasts at most `pingTimeout I < I` and no tick is ever dropped
-(`Props.ping_done_before_next_tick`): the model may identify "the k-th ping" with "tick k".
+reports method-not-found, or fails with another error — or it never answers.
+
+A ping that honours its context (`honours = true`: the contract of `keepaliveSession.Ping`,
+implemented literally by the harness's scripted session) and whose scripted delay is not below the
+deadline ends *at* the deadline with the context's error (a failure).  Then every ping lasts at most
+`pingTimeout I < I`, no tick is ever dropped and "the k-th ping" is "tick k"
+(`Props.ping_done_before_next_tick`, `Props.pings_at_ticks`).
+
+A ping can OVERRUN its deadline (`honours = false`): `jsonrpc2.Connection.Call` writes the request
+before it waits, and `ioConn.Write` does not look at its context while the stream write is blocked —
+which it is for as long as the peer does not READ.  Such a ping returns (with whatever result) only
+after `delay`, however long.  Meanwhile the ticker (a channel of capacity one) keeps exactly one tick
+pending and drops the others: when the overrunning ping is over the loop serves the pending tick at
+once, and later ticks are on the grid again.  So ping `k+1` is issued at
+`max (end of ping k) (first grid instant after the start of ping k)` (`nextStart`), and it gets a
+fresh `pingTimeout I`.
 
 `step` = one iteration of the `case <-ticker.C` arm; `run` folds it over the scripts.  Cancellation
-(`*cancelPtr`) only takes effect in the `select`, i.e. between two iterations: `runCancel`.
+(`*cancelPtr`) only takes effect in the `select`, i.e. between two iterations: `runCancel` serves the
+pings that are issued before the cancellation instant.
 Core Lean only (linked into the driver).
 -/
 namespace KeepAlive
@@ -25,10 +37,13 @@ inductive Kind where
   | error    -- Ping returns any other error
 deriving DecidableEq, Repr
 
-/-- What the peer does with one ping. `delay = none`: never reacts. -/
+/-- What the peer (and the transport) do with one ping. `delay = none`: never reacts.
+`honours = false`: `Ping` does not return before `delay` even when its deadline passes (its write is
+blocked because the peer does not read) — it returns at `delay` with the result `kind`. -/
 structure Script where
   kind : Kind
   delay : Option Nat
+  honours : Bool := true
 deriving DecidableEq, Repr
 
 /-- The result of one ping as the loop sees it, with the time it took. -/
@@ -56,7 +71,7 @@ def observe (timeout : Nat) (s : Script) : Outcome :=
   match s.delay with
   | none => .fail timeout
   | some d =>
-    if d < timeout then
+    if d < timeout || !s.honours then
       match s.kind with
       | .answer => .ok d
       | .mnf => .mnf d
@@ -72,10 +87,20 @@ deriving DecidableEq, Repr
 structure St where
   status : Status := .running
   fails : Nat := 0              -- consecutiveFailures
-  tick : Nat := 0               -- ticks consumed
+  tick : Nat := 0               -- ticks consumed (= pings issued)
   pings : List Nat := []        -- instants at which Ping was called (oldest first)
   closeAt : Option Nat := none  -- instant of session.Close()
+  last : Nat := 0               -- instant at which the last ping was issued (0: none yet)
+  free : Nat := 0               -- instant at which the loop was back in the select (end of the last ping)
 deriving DecidableEq, Repr
+
+/-- The first tick of the grid `I, 2I, …` strictly after instant `t`. -/
+def gridAfter (I t : Nat) : Nat := (t / I + 1) * I
+
+/-- The instant at which the next ping is issued by a loop whose last ping was issued at `last` and
+was over at `free`: the next grid tick — or, when that tick fired while the ping was still in flight,
+the end of that ping (the ticker keeps one tick pending). -/
+def nextStart (I last free : Nat) : Nat := max free (gridAfter I last)
 
 /-- The threshold after `if failureThreshold < 1 { failureThreshold = 1 }`. -/
 def threshold (t0 : Int) : Nat := (normThreshold t0).toNat
@@ -84,10 +109,10 @@ def threshold (t0 : Int) : Nat := (normThreshold t0).toNat
 def step (I T : Nat) (s : St) (sc : Script) : St :=
   match s.status with
   | .running =>
-    let k := s.tick + 1
-    let t := k * I
-    let s1 : St := { s with tick := k, pings := s.pings ++ [t] }
-    match observe (pingTimeout I) sc with
+    let t := nextStart I s.last s.free
+    let o := observe (pingTimeout I) sc
+    let s1 : St := { s with tick := s.tick + 1, pings := s.pings ++ [t], last := t, free := t + o.dur }
+    match o with
     | .ok _ => { s1 with fails := 0 }
     | .mnf _ => { s1 with status := .stopped }
     | .fail d =>
@@ -98,14 +123,22 @@ def step (I T : Nat) (s : St) (sc : Script) : St :=
 
 def run (I : Nat) (t0 : Int) (scs : List Script) : St := scs.foldl (step I (threshold t0)) {}
 
-/-- Ticks that fire strictly before instant `tc` (`tc` is never a tick instant in the harness). -/
-def ticksBefore (I tc : Nat) : Nat := if I = 0 then 0 else (tc - 1) / I
+/-- The number of leading scripts whose pings are issued strictly before instant `tc` by a loop
+that goes on pinging (`last`, `free` as in `nextStart`).  (`tc` never coincides with the start of a
+ping in the harness.) -/
+def pingsBeforeFrom (I tc : Nat) : Nat → Nat → List Script → Nat
+  | _, _, [] => 0
+  | last, free, sc :: t =>
+    let p := nextStart I last free
+    if p < tc then pingsBeforeFrom I tc p (p + (observe (pingTimeout I) sc).dur) t + 1 else 0
 
-/-- The run with `*cancelPtr` called at instant `tc`: only the ticks before `tc` are served (a ping
-in flight at `tc` is completed and its result processed — its context is not derived from the
+def pingsBefore (I tc : Nat) (scs : List Script) : Nat := pingsBeforeFrom I tc 0 0 scs
+
+/-- The run with `*cancelPtr` called at instant `tc`: only the pings issued before `tc` are served (a
+ping in flight at `tc` is completed and its result processed — its context is not derived from the
 cancelled one); then the `select` sees `ctx.Done()` and the goroutine returns. -/
 def runCancel (I : Nat) (t0 : Int) (scs : List Script) (tc : Nat) : St :=
-  let s := run I t0 (scs.take (ticksBefore I tc))
+  let s := run I t0 (scs.take (pingsBefore I tc scs))
   match s.status with
   | .running => { s with status := .stopped }
   | _ => s
@@ -113,21 +146,13 @@ def runCancel (I : Nat) (t0 : Int) (scs : List Script) (tc : Nat) : St :=
 /-! ## Session level (stream `sessions`): what the loop logs, when its goroutine returns, and the
 order of the statements of the sessions' `Close` methods -/
 
-/-- The instant at which ping `k` (k ≥ 1) is over; 0 for `k = 0` (no ping yet). -/
-def pingEnd (I : Nat) (scs : List Script) : Nat → Nat
-  | 0 => 0
-  | k + 1 =>
-    match scs[k]? with
-    | some sc => (k + 1) * I + (observe (pingTimeout I) sc).dur
-    | none => (k + 1) * I
-
 /-- The instant of the WARN record ("keepalive ping failed; tolerating below threshold") that one
 iteration of the ticker arm writes, if it writes one. -/
 def warnStep (I T : Nat) (s : St) (sc : Script) : List Nat :=
   match s.status with
   | .running =>
     match observe (pingTimeout I) sc with
-    | .fail d => if tolerated (s.fails + 1) T then [(s.tick + 1) * I + d] else []
+    | .fail d => if tolerated (s.fails + 1) T then [nextStart I s.last s.free + d] else []
     | _ => []
   | _ => []
 
@@ -140,17 +165,16 @@ def warns (I : Nat) (t0 : Int) (scs : List Script) : List Nat := warnsFrom I (th
 
 /-- … of the run cancelled at `tc`. -/
 def warnsCancel (I : Nat) (t0 : Int) (scs : List Script) (tc : Nat) : List Nat :=
-  warns I t0 (scs.take (ticksBefore I tc))
+  warns I t0 (scs.take (pingsBefore I tc scs))
 
 /-- The instant at which the goroutine of `runCancel` returns (and its deferred `ticker.Stop` runs):
 the end of its last ping when the loop closed the session or stopped on method-not-found; otherwise
 the cancellation instant, or the end of the ping that was in flight then. -/
 def endAt (I : Nat) (t0 : Int) (scs : List Script) (tc : Nat) : Nat :=
-  let pre := scs.take (ticksBefore I tc)
-  let s := run I t0 pre
+  let s := run I t0 (scs.take (pingsBefore I tc scs))
   match s.status with
-  | .running => max tc (pingEnd I pre s.tick)
-  | _ => pingEnd I pre s.tick
+  | .running => max tc s.free
+  | _ => s.free
 
 /-- One top-level statement of a session's `Close` method, as classified by the extractor
 (`Generated.KeepAlive.clientClosePath`, `serverClosePath`). -/
